@@ -111,14 +111,18 @@ Lemma set_widths_cases o gdef seq :
 Proof.
   induction seq as [|g rest IH]; cbn [set_widths].
   - right. exists []. auto.
-  - destruct (is_mark gdef (g_gid g)); cbn [obind].
-    + destruct IH as [->|(out & -> & Ht & Hl)]; [left; reflexivity|].
+  - assert (Hkeep : (g' <- Ok g ;; rest' <- set_widths o gdef rest ;; Ok (g' :: rest')) = Panic \/
+                    exists out, (g' <- Ok g ;; rest' <- set_widths o gdef rest ;; Ok (g' :: rest')) = Ok out /\
+                                text_of out = text_of (g :: rest) /\ length out = length (g :: rest)).
+    { cbn [obind]. destruct IH as [->|(out & -> & Ht & Hl)]; [left; reflexivity|].
       right. exists (g :: out). cbn [obind]. split; [reflexivity|].
-      unfold text_of in *. cbn [flat_map length]. rewrite Ht, Hl. auto.
-    + destruct (glyph_width_cases o (g_gid g)) as [[w ->]| ->]; cbn [obind]; [|left; reflexivity].
-      destruct IH as [->|(out & -> & Ht & Hl)]; [left; reflexivity|].
-      right. eexists. cbn [obind]. split; [reflexivity|].
-      unfold text_of in *. cbn [flat_map length g_text]. rewrite Ht, Hl. auto.
+      unfold text_of in *. cbn [flat_map length]. rewrite Ht, Hl. auto. }
+    destruct (num_glyphs o <=? g_gid g); [exact Hkeep|].
+    destruct (is_mark gdef (g_gid g)); [exact Hkeep|].
+    destruct (glyph_width_cases o (g_gid g)) as [[w ->]| ->]; cbn [obind]; [|left; reflexivity].
+    destruct IH as [->|(out & -> & Ht & Hl)]; [left; reflexivity|].
+    right. eexists. cbn [obind]. split; [reflexivity|].
+    unfold text_of in *. cbn [flat_map length g_text]. rewrite Ht, Hl. auto.
 Qed.
 
 Lemma text_of_seq0 cm s : text_of (seq0 cm s) = s.
